@@ -267,7 +267,9 @@ func c21GenScenario(rng *vrng) *c21Scenario {
 		n.size = uint64(len(sc.content(n.blobs)))
 		sc.tree = append(sc.tree, n)
 	}
-	d := &c21Node{kind: 'd', name: "d"}
+	// an empty file (no content blobs) in the root and one in the sub directory
+	sc.tree = append(sc.tree, &c21Node{kind: 'f', name: "k"})
+	d := &c21Node{kind: 'd', name: "d", sub: []*c21Node{{kind: 'f', name: "k"}}}
 	for i := 0; i < 1+rng.intn(2); i++ {
 		d.sub = append(d.sub, genFile(names[i]))
 	}
@@ -394,7 +396,7 @@ func engineC21(c *vctx) error {
 	}
 	worlds, _ = filepath.EvalSymlinks(worlds)
 
-	nsc := c.n(6, 18)
+	nsc := c.n(7, 18)
 	scs := make([]*c21Scenario, nsc)
 	srngs := make([]*vrng, nsc)
 	for i := range scs {
@@ -444,7 +446,7 @@ func engineC21(c *vctx) error {
 	}
 
 	restoreErrs := 0
-	modes := []string{"fresh", "second-always", "include", "second-never", "second-if-newer", "second-if-changed"}
+	modes := []string{"fresh", "fresh-if-changed", "second-always", "include", "second-if-changed", "second-if-newer", "second-never", "fresh-if-newer", "fresh-never"}
 	for si, sc := range scs {
 		rng := srngs[si]
 		mode := modes[si%len(modes)]
@@ -505,14 +507,14 @@ func engineC21(c *vctx) error {
 					_ = c21Put(p, c21State{kind: 'a'})
 				}
 			}
-			switch mode {
-			case "second-never":
-				opts.Overwrite = restorer.OverwriteNever
-			case "second-if-newer":
-				opts.Overwrite = restorer.OverwriteIfNewer
-			case "second-if-changed":
-				opts.Overwrite = restorer.OverwriteIfChanged
-			}
+		}
+		switch {
+		case strings.HasSuffix(mode, "-never"):
+			opts.Overwrite = restorer.OverwriteNever
+		case strings.HasSuffix(mode, "-if-newer"):
+			opts.Overwrite = restorer.OverwriteIfNewer
+		case strings.HasSuffix(mode, "-if-changed"):
+			opts.Overwrite = restorer.OverwriteIfChanged
 		}
 		res := restorer.NewRestorer(repo, sc.sn, opts)
 		excluded := map[string]bool{}
@@ -585,7 +587,8 @@ func engineC21(c *vctx) error {
 				if en.node.kind == 'f' {
 					nodeCoq = c21CoqNode(en.node.blobs, en.node.size)
 				}
-				ents[i] = fmt.Sprintf("(mkEntry %s %s %s %s)", coqStr(en.loc), coqBool(en.node.kind == 'f'), nodeCoq, st.coq())
+				ents[i] = fmt.Sprintf("(mkEntry %s %s %s %s %s)", coqStr(en.loc), coqBool(en.node.kind == 'f'), nodeCoq, st.coq(),
+					coqBool(st.kind == 'r' && st.mt.Equal(c21T0)))
 			}
 			o := c21RunVerify(ctx, res, dst, nrest)
 			if o.panicked {
@@ -615,7 +618,7 @@ func engineC21(c *vctx) error {
 			for _, x := range extra {
 				rep = append(rep, coqStr("?"+x))
 			}
-			term := fmt.Sprintf("CAll %s %s %s %s %s %s %s %s", bt, h.coq(), flCoq, coqList(ents),
+			term := fmt.Sprintf("CAll %s %s %s %s %s %s %s %s %s", bt, h.coq(), c21OwCoq(opts.Overwrite), flCoq, coqList(ents),
 				coqBool(o.ok), coqN(uint64(o.cnt)), coqList(rep), coqN(uint64(o.cnt2)))
 			c.Hist(fmt.Sprintf("verify-ok=%v", o.ok))
 			c.Case(kind, njobs >= 2, size, term,
@@ -626,9 +629,16 @@ func engineC21(c *vctx) error {
 		with := func(kind string, en c21Ent, st c21State, what string) {
 			p := filepath.Join(dst, en.loc)
 			old := c21Observe(p)
+			// the change keeps (is given back) the snapshot's mtime in 3 of 4 cases: only the content can tell
+			if st.kind == 'r' && st.mt.IsZero() && !rng.chance(25) {
+				st.mt = c21T0
+			}
 			if err := c21Put(p, st); err != nil {
 				c.Hist("tamper-error")
 				return
+			}
+			if st.kind == 'r' && st.mt.Equal(c21T0) {
+				c.Hist("tamper-keeps-mtime")
 			}
 			emitAll(kind, en.loc+": "+what)
 			_ = c21Put(p, old)
@@ -735,7 +745,7 @@ func engineC21(c *vctx) error {
 				default:
 					b = append(b, byte(rng.intn(256)))
 				}
-				_ = c21Put(p, c21State{kind: 'r', data: b})
+				_ = c21Put(p, c21State{kind: 'r', data: b, mt: c21T0})
 				what = append(what, en.loc)
 			}
 			emitAll("tamper-multi", "changed "+strings.Join(what, ","))
